@@ -14,7 +14,9 @@ from multiprocessing import Pool
 
 NAMES = ["a", "d/b", ".copiarc", "with space/q'uote", "d\\b", "raw\udcff.bin", "d", "d.txt", "a.conflict-0da8ee51c1f8"]          # 'd\\b' is ONE component containing a backslash; the last name is the byte string b'raw\\xff.bin' (not UTF-8); 'd' is a FILE named like the directory of 'd/b' (one tree never holds both); 'd.txt' sorts BEFORE 'd/b' as a string and AFTER it as a path; the last name is what a conflict-copy of content 5 on 'a' would be called - an ordinary file when a client owns one (scripted histories only)
 CONTENT = {1: b"one-" * 50 + b"\n", 2: b"two!" * 700 + b"\n" + b"\0" * 140_000, 3: b"", 4: b"four" * 20000,
-           5: b"five, owned by one client\n" * 3}          # content 5 appears in one scripted history only
+           5: b"five, owned by one client\n" * 3,          # content 5 appears in one scripted history only
+           6: b"uno-" * 50 + b"\n"}          # content 6: as long as content 1, other bytes (scripted windows only: a version that replaces
+                                             # another of the same size within the same second looks "unchanged" to size + mtime)
 BY_BYTES = {v: k for k, v in CONTENT.items()}
 CFG = {}
 
@@ -136,6 +138,14 @@ CLASH_RACES = [
 EMPTY_RACES = [
     {"hub": {}, "A": {"a": 3, "with space/q'uote": 2}, "B": {"a": 1}},
     {"hub": {"a": 1, ".copiarc": 1}, "A": {"a": 3, ".copiarc": 3, "d.txt": 4}, "B": {"a": 2, ".copiarc": 2}},
+]
+
+
+# ... and windows in which B replaces the listed version by one of the SAME LENGTH (within the same second, as things go here):
+# A's stale Put has to lose all the same - what counts is the content's hash at the moment of the compare
+SAMELEN_RACES = [
+    {"hub": {"a": 1, "d.txt": 1}, "A": {"a": 2, "d.txt": 4}, "B": {"a": 6, "d.txt": 6}},
+    {"hub": {"a": 6, "with space/q'uote": 1}, "A": {"a": 4, "with space/q'uote": 2}, "B": {"a": 1, "with space/q'uote": 6}},
 ]
 
 
